@@ -44,6 +44,20 @@ fn run_entry(req: &Value) -> Value {
             }
             Err(e) => crate::errs(e),
         },
+        // PL from JSON: resolve + lower, answer the RQ as JSON (correspondence of the constant folding of `std.neg`)
+        "json_pl_rq" => match prqlc::json::to_pl(src) {
+            Ok(pl) => match prqlc::pl_to_rq(pl) {
+                Ok(rq) => match prqlc::json::from_rq(&rq) {
+                    Ok(j) => match serde_json::from_str::<Value>(&j) {
+                        Ok(v) => json!({ "ok": v }),
+                        Err(e) => json!({"bad_rq_json": e.to_string()}),
+                    },
+                    Err(e) => crate::errs(e),
+                },
+                Err(e) => crate::errs(e),
+            },
+            Err(e) => crate::errs(e),
+        },
         // RQ from JSON: SQL generation
         "json_rq" => match prqlc::json::to_rq(src) {
             Ok(rq) => match crate::options(req) {
